@@ -144,6 +144,11 @@ class CmdScenario(WorldScenario):
             for n in cone:
                 w.m_hash[n] = w.model.targets[n].spec_sha1()
         self.check_hash_file(w, "after touch")
+        if w.hashing:
+            got = w.read_hashes()
+            missing = sorted(n for n in cone if not isinstance(got, dict) or got.get(n) != w.model.targets[n].spec_sha1())
+            if missing:
+                w.flag("C16", "spec_not_recorded_by_touch", f"touch {patterns}: current spec of {missing} not recorded")
         after = w.snapshot()
         cone_files = {o for n in cone for o in w.model.targets[n].outputs}
         w.probe("touch_commands")
